@@ -410,14 +410,22 @@ def entryRow (m : MdE) : List String :=
     | .scalar s => [s]
     | .list xs => xs)
 
+/-- the text that stands for a missing cell (None / NaN padding) -/
+def missing : String := "missing"
+
+/-- the row of one entry: under every column the entry's own value for that column, a column the
+entry lacks (a shorter list) stays missing (`row.get(col)`) -/
+def rowFor (mcols : List String) (m : MdE) : List String :=
+  mcols.map (fun c => (lookupBy (entryColumns m) (entryRow m) c).getD missing)
+
 /-- `metadata_to_dataframe`: the column names are those of the longest expansion seen (first wins),
-every row is the entry's values in the entry's own key order -/
+every value goes under its own column -/
 def mdFrameM (ids : List Id) (md : Option (List MdE)) : Except Err MdFrame :=
   match md with
   | none => .error .key
   | some es =>
     let mcols := es.foldl (fun acc m => let c := entryColumns m; if c.length > acc.length then c else acc) []
-    .ok { index := ids, columns := mcols, rows := es.map entryRow }
+    .ok { index := ids, columns := mcols, rows := es.map (rowFor mcols) }
 
 /-! ## The property, on observations only -/
 open Codec
@@ -606,7 +614,8 @@ def frameVerdict (t : Table Rat) (sparse : Bool) (f : Frame) : Verdict :=
 def holdsFrame (t : Table Rat) (f : Frame) : Bool := frameLabels t f && frameValues t f
 
 /-- metadata frame: index = IDs in order; for every ID and every (key, position) of its entry the
-frame shows that value under the column `key` / `key_position`; there are no other columns -/
+frame shows that value under the column `key` / `key_position`; a column the entry does not have (a
+shorter list) is missing for that ID; every column belongs to some entry -/
 def holdsMdFrame (ids : List Id) (md : Option (List MdE)) (r : Except Err MdFrame) : Bool :=
   match md, r with
   | none, .error e => e == .key
@@ -618,7 +627,8 @@ def holdsMdFrame (ids : List Id) (md : Option (List MdE)) (r : Except Err MdFram
       | some row =>
         row.length == f.columns.length &&
         ((entryColumns m).zip (entryRow m)).all (fun (c, v) => lookupBy f.columns row c == some v) &&
-        f.columns.all (fun c => (entryColumns m).contains c))
+        f.columns.all (fun c => (entryColumns m).contains c || lookupBy f.columns row c == some missing)) &&
+    f.columns.all (fun c => es.any (fun m => (entryColumns m).contains c))
   | _, _ => false
 
 /-! ## JSON glue -/
